@@ -1320,11 +1320,8 @@ func (p *Parser) parseDeferredBlocks(objIndex uint32) parseResult {
 // only operates on non-named objects.
 func (p *Parser) connectNonNamedObjArgs(objIndex uint32) parseResult {
 	var (
-		obj          = p.objTree.ObjectAt(objIndex)
-		argObj       *Object
-		argFlags     pOpArgTypeList
-		argCount     uint8
-		termArgIndex uint8
+		obj    = p.objTree.ObjectAt(objIndex)
+		argObj *Object
 	)
 
 	// The arg list must be visited in reverse order to handle nesting
@@ -1335,38 +1332,50 @@ func (p *Parser) connectNonNamedObjArgs(objIndex uint32) parseResult {
 			return parseResultFailed
 		}
 
-		// Ignore named objects and objects not defined by the table currently parsed
-		if pOpcodeTable[argObj.infoIndex].flags&pOpFlagNamed != 0 || argObj.tableHandle != p.tableHandle {
-			continue
-		}
-
-		// Check if this object's args specify a TermObj/DataRefObj which
-		// would cause the parser to consume any object found till the
-		// enclosing package end.
-		argFlags = pOpcodeTable[argObj.infoIndex].argFlags
-		argCount = argFlags.argCount()
-		for termArgIndex = 0; termArgIndex < argCount; termArgIndex++ {
-			if argType := argFlags.arg(termArgIndex); argType == pArgTypeTermArg || argType == pArgTypeDataRefObj {
-				break
-			}
-		}
-
-		// No term args OR we have parsed beyond the TermArg; assume object has been completely parsed
-		if termArgIndex >= argCount || p.objTree.NumArgs(argObj) > uint32(termArgIndex) {
-			continue
-		}
-
-		// The parser has already attached args [0, termArgIndex) to
-		// the object and has parsed the remaining args as siblings to
-		// the object. Detach the missing args from the sibling list and
-		// attach them to object. The following call may also return back
-		// parseResultRequireExtraPass which is OK at this stage.
-		if p.attachSiblingsAsArgs(obj, argObj, argCount-termArgIndex, true) == parseResultFailed {
+		if p.connectNonNamedObjArg(obj, argObj) == parseResultFailed {
 			return parseResultFailed
 		}
 	}
 
 	return parseResultOk
+}
+
+// connectNonNamedObjArg populates the missing args of argObj, a non-named
+// child of obj, by consuming the siblings of argObj.
+func (p *Parser) connectNonNamedObjArg(obj, argObj *Object) parseResult {
+	var (
+		argFlags     pOpArgTypeList
+		argCount     uint8
+		termArgIndex uint8
+	)
+
+	// Ignore named objects and objects not defined by the table currently parsed
+	if pOpcodeTable[argObj.infoIndex].flags&pOpFlagNamed != 0 || argObj.tableHandle != p.tableHandle {
+		return parseResultOk
+	}
+
+	// Check if this object's args specify a TermObj/DataRefObj which
+	// would cause the parser to consume any object found till the
+	// enclosing package end.
+	argFlags = pOpcodeTable[argObj.infoIndex].argFlags
+	argCount = argFlags.argCount()
+	for termArgIndex = 0; termArgIndex < argCount; termArgIndex++ {
+		if argType := argFlags.arg(termArgIndex); argType == pArgTypeTermArg || argType == pArgTypeDataRefObj {
+			break
+		}
+	}
+
+	// No term args OR we have parsed beyond the TermArg; assume object has been completely parsed
+	if termArgIndex >= argCount || p.objTree.NumArgs(argObj) > uint32(termArgIndex) {
+		return parseResultOk
+	}
+
+	// The parser has already attached args [0, termArgIndex) to
+	// the object and has parsed the remaining args as siblings to
+	// the object. Detach the missing args from the sibling list and
+	// attach them to object. The following call may also return back
+	// parseResultRequireExtraPass which is OK at this stage.
+	return p.attachSiblingsAsArgs(obj, argObj, argCount-termArgIndex, true)
 }
 
 // resolveMethodCalls visits each object with the pOpIntNamePathOrMethodCall
@@ -1406,6 +1415,13 @@ func (p *Parser) resolveMethodCalls(objIndex uint32) parseResult {
 		}
 
 		if argObj.opcode != pOpIntNamePathOrMethodCall || argObj.tableHandle != p.tableHandle {
+			// The objects that follow argObj have already been reduced to
+			// complete terms. If argObj is an operator, its operands
+			// must be attached to it now: a method call further to the
+			// left counts argObj together with its operands as one arg.
+			if p.connectNonNamedObjArg(obj, argObj) == parseResultFailed {
+				return parseResultFailed
+			}
 			continue
 		}
 
